@@ -169,6 +169,55 @@ def rule_value_str(ctx, py, R):
               "quantity does not parse back to the same value" % (pyfe.src(parts[0])[:80] if parts else "?"))
 
 
+FLOAT_TEXTS = ("0.0", "1.0", "-1.5", "2499.99", "1e+16", "-6.02214076e+23", "1.2345e-07", "5e-324", "1.7976931348623157e+308",
+               "1e-05", "123456789012.0")
+
+
+def rule_value_read(ctx, py):
+    """C18.VALUE-READ -- the number of a printed quantity is read back by float(), the inverse of the str() it was printed with;
+    a filter put in front of it (a regular expression on the value token) accepts every shape str(float) produces, the
+    exponent forms d.ddde+NN / d.ddde-NN included.  The patterns are literals of the source; they are compiled and matched
+    against fixed sample texts here -- the package itself is not executed."""
+    R = "C18.VALUE-READ"
+    import re
+    f = py.fn("units.parse_unitvalue")
+    m = f._mod
+    conv = [c for c in pyfe.calls_in(f) if pyfe.call_name(c) == "float" and c.args]
+    ctx.check(len(conv) >= 1 and all(pyfe.src(c.args[0]).startswith("tok[0]") for c in conv), R, conv[0] if conv else f, f._qual,
+              "value = float(tok[0])", "inverse of str(float)", "the value token is not read with float()")
+    # module-level compiled patterns
+    pats = {}
+    for st in m.tree.body:
+        if isinstance(st, ast.Assign) and isinstance(st.value, ast.Call) and pyfe.call_name(st.value) in ("re.compile", "compile") \
+                and st.value.args and isinstance(st.value.args[0], ast.Constant) and isinstance(st.value.args[0].value, str):
+            for t in st.targets:
+                if isinstance(t, ast.Name):
+                    pats[t.id] = st.value.args[0].value
+    n = 0
+    for c in pyfe.calls_in(f):
+        if not (isinstance(c.func, ast.Attribute) and c.func.attr in ("match", "fullmatch", "search")):
+            continue
+        base = pyfe.src(c.func.value)
+        if base == "re" and len(c.args) >= 2 and isinstance(c.args[0], ast.Constant):
+            pat, subj = c.args[0].value, c.args[1]
+        elif base in pats and c.args:
+            pat, subj = pats[base], c.args[0]
+        else:
+            ctx.error(R, "parse_unitvalue: regular expression `%s` is not a literal of the module" % pyfe.src(c)[:50])
+        if "tok[0]" not in pyfe.src(subj):
+            continue
+        try:
+            rx = re.compile(pat)
+        except re.error as e:
+            ctx.error(R, "parse_unitvalue: pattern does not compile: %s" % e)
+        miss = [t for t in FLOAT_TEXTS if getattr(rx, c.func.attr)(t) is None]
+        n += 1
+        ctx.check(not miss, R, c, f._qual, "value filter %r" % pat, "accepts every shape str(float) prints",
+                  "the filter in front of float() does not match %s: a quantity printed with such a value cannot be read back"
+                  % ", ".join(repr(t) for t in miss[:3]))
+    ctx.floor(R, 1)
+
+
 def rule_samebase(ctx, py):
     """addunit accepts a second factor of a base kind only if it names the unit already recorded for that kind"""
     R = "C18.SAMEBASE"
@@ -328,6 +377,7 @@ def rule_blocks(ctx, py):
 def run(ctx):
     py = ctx.py
     rule_samebase(ctx, py)
+    rule_value_read(ctx, py)
     rule_expsum(ctx, py)
     rule_alphabet(ctx, py)
     rule_micro(ctx, py)
